@@ -50,7 +50,7 @@ def replay_values(rec) -> dict:
     n = 0
     root = rec['root']
     exp = expected_values(rec)
-    rows = range(pool.nrows)
+    rows = range(pool.nunits)
     shared = Builder(pool, rec['ops'], share=True).build(root)
     tree = Builder(pool, rec['ops'], share=False).build(root)
     for p in range(pool.npoints):
@@ -133,7 +133,7 @@ def replay_derivatives(rec) -> dict:
     root = rec['root']
     vals = expected_values(rec)
     jets = expected_jets(rec)
-    rows = range(pool.nrows)
+    rows = range(pool.nunits)
     allnames = pool.free_names_sorted()
     occ = [k - 1 for k in rec['freeocc']]  # global ranks of the free parameters of this formula, in its own order
     names = [allnames[k] for k in occ]
@@ -214,7 +214,7 @@ def replay_biogeme_derivatives(rec) -> dict:
     root = rec['root']
     vals = expected_values(rec)
     jets = expected_jets(rec)
-    rows = range(pool.nrows)
+    rows = range(pool.nunits)
     allnames = pool.free_names_sorted()
     occ = [k - 1 for k in rec['freeocc']]
     names = [allnames[k] for k in occ]
